@@ -10,10 +10,11 @@
    every address of B lies in an available block or in a block of H, and nothing else does (tiling: no overlap, no gap).
    chosen st q c0: c0 is an available block with the largest prefix <= q (unique, C20_chosen_unique).
    subnets_of w c0 q cnt = [ {first c0 + i * 2^(w-q); q} | 0 <= i < cnt ].
-   Theorems that go through the `cidr_merge(subnets)` call carry the hypothesis `cidr_merge_spec` (Proofs/NetDen.v:
-   cidr_merge returns the canonical list of exactly the union of its inputs), proved in Proofs/C05.v. *)
+   The proofs that go through the `cidr_merge(subnets)` call (Proofs/C20.v) are stated under `cidr_merge_spec`
+   (Proofs/NetDen.v: cidr_merge returns the canonical list of exactly the union of its inputs); here that hypothesis
+   is discharged by C05_merge (Proofs/C05.v), so the theorems below carry no hypothesis. *)
 From NV Require Import Base.Tac Base.PyVal Base.Bits Base.Canon Model.Ip Model.Partition Model.Merge Model.Subnet Model.Splitter
-  Proofs.C09 Proofs.C11 Proofs.NetDen Proofs.C20_excl Proofs.C20.
+  Proofs.C09 Proofs.C11 Proofs.NetDen Proofs.C05 Proofs.C20_excl Proofs.C20.
 From Coq Require Import Sorting.Permutation.
 Open Scope Z_scope.
 
@@ -26,7 +27,7 @@ Print Assumptions C20_init.
 (* read off the outcome: a normal return keeps the invariant with the returned subnets added to H; every returned
    subnet is a host-bit-free /q inside the base, disjoint from everything handed out or removed before and from the
    other returned subnets; an empty result leaves the state as it was; the only exception is ValueError *)
-Theorem C20_extract : cidr_merge_spec -> forall ver, valid_ver ver = true -> forall B st H q count,
+Theorem C20_extract : forall ver, valid_ver ver = true -> forall B st H q count,
   Inv (width ver) B st H -> q <= width ver ->
   match extract_subnet ver st q count with
   | Ok (st', subnets) =>
@@ -38,7 +39,7 @@ Theorem C20_extract : cidr_merge_spec -> forall ver, valid_ver ver = true -> for
       (subnets = [] -> st' = st)
   | Raise e => e = ValueError
   end.
-Proof. exact extract_cases. Qed.
+Proof. exact (extract_cases C05_merge). Qed.
 Print Assumptions C20_extract.
 
 (* which block is used, and what exactly comes back: no available block of prefix <= q: [] and nothing changes *)
@@ -51,7 +52,7 @@ Print Assumptions C20_extract_none.
 (* otherwise the available block c0 with the largest prefix <= q is used; with cnt = count (default 2^(q - p0)) in
    [1, 2^(q - p0)] its first cnt blocks /q are returned (never an empty list), the invariant is kept and the
    available space shrinks by exactly the returned subnets *)
-Theorem C20_extract_chosen : cidr_merge_spec -> forall ver, valid_ver ver = true -> forall B st H q count c0,
+Theorem C20_extract_chosen : forall ver, valid_ver ver = true -> forall B st H q count c0,
   Inv (width ver) B st H -> q <= width ver -> chosen st q c0 ->
   let cnt := req_count count q (snd c0) in
   1 <= cnt <= 2 ^ (q - snd c0) ->
@@ -63,7 +64,7 @@ Theorem C20_extract_chosen : cidr_merge_spec -> forall ver, valid_ver ver = true
        (forall x, inc (width ver) s x -> inc (width ver) c0 x)) /\
     pw_disjoint (width ver) (subnets_of (width ver) c0 q cnt) /\
     (forall x, cov (width ver) st' x <-> cov (width ver) st x /\ ~ cov (width ver) (subnets_of (width ver) c0 q cnt) x).
-Proof. exact extract_ok. Qed.
+Proof. exact (extract_ok C05_merge). Qed.
 Print Assumptions C20_extract_chosen.
 
 (* ... and a count outside [1, 2^(q - p0)] raises ValueError (the state is kept by sp_step, C20_step) *)
@@ -99,24 +100,24 @@ Proof. exact remove_absent. Qed.
 Print Assumptions C20_remove_absent.
 
 (* ---- one API call (sp_step: a raising call leaves the state as it was) ---- *)
-Theorem C20_step : cidr_merge_spec -> forall ver, valid_ver ver = true -> forall B st H o,
+Theorem C20_step : forall ver, valid_ver ver = true -> forall B st H o,
   Inv (width ver) B st H -> op_ok ver o -> step_ok ver B st H o (sp_step ver st o).
-Proof. exact step_spec. Qed.
+Proof. exact (step_spec C05_merge). Qed.
 Print Assumptions C20_step.
 
 (* ---- histories: any finite sequence of extract_subnet(q <= w, any count) and remove_subnet(any network) calls ----
    `run ver B ops` = (available blocks, blocks handed out or removed so far) after the calls `ops` on SubnetSplitter(B) *)
-Theorem C20_reachable : cidr_merge_spec -> forall ver, valid_ver ver = true -> forall B, wf_cblk (width ver) B ->
+Theorem C20_reachable : forall ver, valid_ver ver = true -> forall B, wf_cblk (width ver) B ->
   forall ops, Forall (op_ok ver) ops -> Inv (width ver) B (fst (run ver B ops)) (snd (run ver B ops)).
-Proof. exact reachable. Qed.
+Proof. exact (reachable C05_merge). Qed.
 Print Assumptions C20_reachable.
 
 (* the next call after any history: every subnet returned has the requested prefix, lies inside the base and is disjoint
    from every subnet returned or removed before; failed requests (ValueError, KeyError) leave the state unchanged *)
-Theorem C20_reachable_step : cidr_merge_spec -> forall ver, valid_ver ver = true -> forall B, wf_cblk (width ver) B ->
+Theorem C20_reachable_step : forall ver, valid_ver ver = true -> forall B, wf_cblk (width ver) B ->
   forall ops o, Forall (op_ok ver) ops -> op_ok ver o ->
   step_ok ver B (fst (run ver B ops)) (snd (run ver B ops)) o (sp_step ver (fst (run ver B ops)) o).
-Proof. exact reachable_step. Qed.
+Proof. exact (reachable_step C05_merge). Qed.
 Print Assumptions C20_reachable_step.
 
 Theorem C20_run_snoc : forall ver B ops o, run ver B (ops ++ [o]) = acc_step ver (run ver B ops) o.
@@ -125,10 +126,10 @@ Print Assumptions C20_run_snoc.
 
 (* totality: no OutOfFuel, Unsupported, IndexError, AddrFormatError; KeyError only from the user's remove_subnet
    (never from the internal remove_subnet of the chosen block), ValueError only from extract_subnet *)
-Theorem C20_no_fuel : cidr_merge_spec -> forall ver, valid_ver ver = true -> forall B st H o e,
+Theorem C20_no_fuel : forall ver, valid_ver ver = true -> forall B st H o e,
   Inv (width ver) B st H -> op_ok ver o -> snd (sp_step ver st o) = Raise e ->
   match o with SpExtract _ _ => e = ValueError | SpRemove _ => e = KeyError end /\ fst (sp_step ver st o) = st.
-Proof. exact step_exn. Qed.
+Proof. exact (step_exn C05_merge). Qed.
 Print Assumptions C20_no_fuel.
 
 (* ---- the iteration order of the Python set is irrelevant ---- *)
@@ -143,14 +144,14 @@ Proof. exact Inv_perm. Qed.
 Print Assumptions C20_Inv_perm.
 
 (* listing the same set in another order gives the same returned subnets and the same available space afterwards *)
-Theorem C20_order_irrelevant : cidr_merge_spec -> forall ver B st st2 H q count, valid_ver ver = true ->
+Theorem C20_order_irrelevant : forall ver B st st2 H q count, valid_ver ver = true ->
   Inv (width ver) B st H -> Permutation st st2 -> q <= width ver ->
   match extract_subnet ver st q count, extract_subnet ver st2 q count with
   | Ok (st', s), Ok (st2', s2) => s = s2 /\ forall x, cov (width ver) st' x <-> cov (width ver) st2' x
   | Raise e, Raise e2 => e = e2
   | _, _ => False
   end.
-Proof. exact extract_order_irrelevant. Qed.
+Proof. exact (extract_order_irrelevant C05_merge). Qed.
 Print Assumptions C20_order_irrelevant.
 
 (* ---- the vocabulary is what the header says ---- *)
